@@ -226,10 +226,7 @@ PEnter(i, tag, key, dead0) ==
     \* "exit status" of the container (weaker reading)
     LET same == {j \in Insts : KClass(inst[j].key) = KClass(key) /\ ~inst[j].act /\ inst[j].cur /\ <<1, j>> \in cbseen}
         prev == IF same = {} THEN 0 ELSE CHOOSE j \in same : \A k \in same : inst[k].eclk <= inst[j].eclk
-        \* An instance born with a cancelled context is a straggler of an earlier generation -- unless the
-        \* context is the container's present one and the CLIENT cancelled it (rootdead): then it is the
-        \* container's own current run, and what it returns is the container's exit status.
-        dead == dead0 /\ ~(tag = pctx /\ tag \in rootdead)
+        dead == dead0
         rec == [act |-> TRUE, out |-> "", tag |-> tag, key |-> key, eclk |-> clk + 1, ep |-> epoch,
                 lclk |-> 0, ltime |-> 0, cur |-> FALSE, dead |-> dead]
     IN
@@ -267,18 +264,26 @@ PLeave(i, out) ==
     /\ UNCHANGED <<cfg, now, pctx, prt, epoch, calls, snapw, chs, credit, creditR, needEnter, ctxTouch, status, cbseen, boReset, boStop, rootdead, td>>
 
 \* exit callback k ran for the exit of instance i (0: an instance that never entered the function)
+OwnDead(i) == /\ i # 0 /\ i \in Insts /\ inst[i].dead /\ inst[i].tag = pctx /\ pctx \in rootdead
+              /\ inst[i].key = prt /\ inst[i].ep = epoch
+
 PExitCb(k, i, err) ==
     /\ cbseen' = IF i # 0 THEN cbseen \cup {<<k, i>>} ELSE cbseen
     \* (the exit of an instance that was superseded meanwhile may still be reported, but it is
     \* not the container's exit status)
-    /\ status' = IF IsCurrent(i) THEN i ELSE status
+    \* ... unless the container's present context is one the CLIENT cancelled (rootdead): a run born under
+    \* it is born with a cancelled context like a straggler, yet if it is the present routine's, entered
+    \* in the present epoch, and its exit is reported, it is the container's own run and its result the
+    \* container's exit status (found by ./check C14 thorough: WaitExited rightly returned its nil)
+    /\ status' = IF IsCurrent(i) \/ OwnDead(i) THEN i ELSE status
     /\ Tick
     /\ bad' = bad
          \cup (IF i # 0 /\ <<k, i>> \in cbseen THEN {"ExitCbDup"} ELSE {})
          \cup (IF i # 0 /\ (i \notin Insts \/ inst[i].act) THEN {"ExitCbFabricated"}
                ELSE IF i # 0 /\ err # ErrName(i) THEN {"ExitCbWrongErr"} ELSE {})
     \* the bookkeeping of the instance is done: its status is now visible to WaitExited
-    /\ calls' = IF IsCurrent(i) THEN Refresh(calls, EffCtx, prt, i) ELSE calls
+    /\ calls' = IF IsCurrent(i) THEN Refresh(calls, EffCtx, prt, i)
+               ELSE IF OwnDead(i) THEN Refresh(calls, pctx, prt, i) ELSE calls
     /\ UNCHANGED <<cfg, now, pctx, prt, epoch, inst, snapw, chs, credit, creditR, needEnter, ctxTouch, boReset, boStop, rootdead, td>>
 
 \* C04: the channel returned by SetRoutine/SetState closed
